@@ -1,6 +1,6 @@
 #!/bin/bash
 ROOT=$(cd "$(dirname "$0")/.." && pwd)
-# finding_replay.sh [--refresh]
+# finding_replay.sh [--refresh|--force]
 # The repaired defect H1 (known_findings.json, "fixed") must stay reproducible: with the repair reverted
 # (mutants/c14-h1-revert.patch, scratch worktree) the committed replay file must violate C14 again, and on /repo
 # as it is it must not.  A replay script answers the generators' draws, so every change of the generators makes
@@ -14,6 +14,7 @@ trap 'git -C /repo worktree remove --force "$wt" 2>/dev/null; rm -rf "$wt" "$out
 ( cd "$wt" && git apply "$ROOT/mutants/c14-h1-revert.patch" ) || { echo "revert patch does not apply"; exit 9; }
 mkdir -p "$out"
 r=$(VERIF_REPO="$wt" VERIF_OUT="$out" "$ROOT"/check.sh C14 --replay "$f" 2>/dev/null | tail -1)
+[ "$1" = "--force" ] && { r="forced"; set -- --refresh; }
 case "$r" in
   VIOLATION*) echo "finding replay: reproduces with the repair reverted";;
   *) echo "finding replay: STALE ($r)"
